@@ -114,19 +114,20 @@ func owns(prop string, c *Contract, ob *Obligation) bool {
 		}
 	}
 	if ob.Prop != "" {
-		return ob.Prop == prop
-	}
-	if len(c.Props) > 0 && c.Props[0] == prop {
-		return true
-	}
-	if sweepProps[prop] && hasProp(c, prop) {
-		k := ob.Kind
-		if i := strings.LastIndex(k, "/"); i >= 0 { // obligations of inlined callees: inl(f)@0/nil
-			k = k[i+1:]
+		// a clause labelled [C05,C06:name] belongs to each of the listed properties
+		for _, p := range strings.Split(ob.Prop, ",") {
+			if p == prop {
+				return true
+			}
 		}
-		return safetyKinds[k] || strings.HasPrefix(k, "pre:") || ob.Cover
+		return false
 	}
-	return false
+	// Unlabelled obligations of a function (its frame, its safety, unlabelled clauses) belong to every
+	// property the contract lists: a function a property depends on must be right as a whole for that
+	// property, and a change that breaks the function is reported by each of its properties' checks.
+	// (Until session 4 only the first listed property and the sweep properties owned them; seeded changes
+	// were then caught by a neighbouring check instead of the property's own.)
+	return hasProp(c, prop)
 }
 
 var returnOrdinalRe = regexp.MustCompile(`@\d+$`)
